@@ -117,7 +117,37 @@ def streams(rng, tier):
     s3 = Stream("int-conversions", "hcore", conv, judge=judge_conv,
                 rule="Int::try_from(i128) then T::try_from(Int), and Int::from/try_from(T), for every boundary 2^k±3, ±2^64 edges and random values x all ten primitive types")
     s3.shrinkable = False
-    return [s1, s2, s3]
+    # the Decode impls built on the accessors: usize/isize, NonZero*, atomics, Int, char (typed decode of the same heads)
+    R = RANGE
+    TY = {"usize": ("u64", R["u64"], False), "isize": ("i64", R["i64"], False), "Int": ("int", R["int"], False),
+          "u8": ("u8", R["u8"], False), "i8": ("i8", R["i8"], False), "u16": ("u16", R["u16"], False), "i16": ("i16", R["i16"], False),
+          "u32": ("u32", R["u32"], False), "i32": ("i32", R["i32"], False), "u64": ("u64", R["u64"], False), "i64": ("i64", R["i64"], False)}
+    for b in ("U8", "U16", "U32", "U64", "I8", "I16", "I32", "I64"):
+        TY["NonZero" + b] = (f"nz({b.lower()})", R[b.lower()], True)
+        TY["Atomic" + b] = (b.lower(), R[b.lower()], False)
+    TY["NonZeroUsize"] = ("nz(u64)", R["u64"], True); TY["NonZeroIsize"] = ("nz(i64)", R["i64"], True)
+    TY["AtomicUsize"] = ("u64", R["u64"], False); TY["AtomicIsize"] = ("i64", R["i64"], False)
+    tops, tmops, texp = [], [], {}
+    sel = [t for t in triples if t[2] < 300 or t[2] in set(gen.boundaries(64))] + rng.sample(triples, min(len(triples), 4000))
+    for (neg, width, n) in sel:
+        hd = gen.head(neg, n, width).hex()
+        v = -1 - n if neg else n
+        for name in (TY if n < 70000 else rng.sample(sorted(TY), 8)):
+            desc, (lo, hi), nz = TY[name]
+            op = f"tdec {name} {hd}05 #:{neg},{width},{n}"
+            tops.append(op); tmops.append(f"tdec {desc} {hd}05")
+            texp[op] = (f"ok {v} {1 + width}" if lo <= v <= hi and not (nz and v == 0) else None)
+    def judge_typed(op, impl, model, spec):
+        e = texp[op]
+        if e is None:
+            if not impl.startswith("err"): return "violation"
+        elif impl != e:
+            return "violation"
+        return "ok" if impl == model else "corr"
+    s4 = Stream("typed-int-impls", "hcore", tops, model_ops=tmops, judge=judge_typed,
+                rule="tdec of usize/isize/NonZero*/Atomic*/Int/the eight fixed types on every (sign,width,argument) head: value iff representable (and non-zero for NonZero), position = head length")
+    s4.shrinkable = False
+    return [s1, s2, s3, s4]
 
 
 DT_ACC = {"u8": "u8", "u16": "u16", "u32": "u32", "u64": "u64", "i8": "i8", "i16": "i16", "i32": "i32", "i64": "i64", "int": "int"}
